@@ -67,6 +67,9 @@ func (c *Collection) writeWithMeta(key string, body []byte, xattrs []byte, oldCa
 			if oldCas != prevCas {
 				return sgbucket.CasMismatchErr{Expected: oldCas, Actual: prevCas}
 			}
+			if isDeletion {
+				exp = 0 // a tombstone has nothing left to expire (the sweep would "delete" it once more)
+			}
 			revSeqNo++
 			e = &event{
 				key:        key,
@@ -702,6 +705,9 @@ func (c *Collection) writeWithXattrs(
 		casOut = newCas
 		if exp != nil {
 			e.exp = absoluteExpiry(*exp)
+		}
+		if e.value == nil {
+			e.exp = 0 // a tombstone has nothing left to expire: deleting clears the expiry, whatever the call's exp says
 		}
 
 		err = c.storeDocument(txn, e)
